@@ -997,6 +997,63 @@ fn hot_cold_swap_scenario(ctx: &mut Ctx, r: &mut SplitMix64) {
     }
 }
 
+/// Ising samplers WITHOUT transverse field (Gamma exactly 0), with and without longitudinal
+/// field: time steps until the string holds operators (field ops when h != 0), then `into_qmc()`
+/// of a clone and a walk on the converted generic sampler — Legal right after the conversion and
+/// after every generic step (the op manager is carried over with the Ising bond numbering, which
+/// always reserves the nvars transverse slots).
+fn gamma_zero_convert_scenario(ctx: &mut Ctx, r: &mut SplitMix64) {
+    let with_h = r.chance(3, 4);
+    let mut spec = gen_ising_spec(r, Some(with_h));
+    spec.gamma = 0.0;
+    // no J = 0 edges here: with Gamma = 0 a variable without any term at all is uninteresting
+    for e in spec.edges.iter_mut() {
+        if e.1 == 0.0 {
+            e.1 = 0.5;
+        }
+    }
+    stat(if spec.h != 0.0 { "gamma0.h_nonzero" } else { "gamma0.h_zero" }, 1);
+    let cutoff = r.range(1, 8) as usize;
+    let st = gen_state(r, spec.nvars);
+    let mut g = G::<SplitMix64>::new_with_rng(spec.edges.clone(), 0.0, spec.h, cutoff, SplitMix64::new(r.next()), Some(st));
+    if r.chance(1, 3) {
+        g.set_enable_heatbath(true);
+    }
+    emit_init_g(ctx, &g);
+    for round in 0..r.range(3, 6) {
+        let beta = *r.pick(&[0.5, 1.0, 2.0, 4.0]);
+        if !ising_timestep(ctx, &mut g, beta, false) {
+            return;
+        }
+        if round >= 1 {
+            let gc = g.clone();
+            let b = snap_g(&gc);
+            let ne = spec.edges.len();
+            if b.ops.iter().any(|o| o.bond >= ne + spec.nvars) {
+                stat("gamma0.converted_with_field_ops", 1);
+            }
+            match catch(move || gc.into_qmc()) {
+                Err(msg) => {
+                    let tok = ising_view(&g).token;
+                    emit_panic(ctx, "move", "into_qmc", &tok, 0, &b, &msg);
+                }
+                Ok(mut q) => {
+                    let a = snap_q(&q);
+                    let fold = fold_q(&q);
+                    {
+                        let hv = generic_view(&q);
+                        emit_case(ctx, "move", "into_qmc", &hv, q.get_cutoff(), &b, &a, q.get_manager_ref(), fold, Ok(()));
+                    }
+                    if r.coin() {
+                        q.set_do_loop_updates(true);
+                    }
+                    generic_walk(ctx, r, &mut q, None, 5);
+                }
+            }
+        }
+    }
+}
+
 fn ising_scenario(ctx: &mut Ctx, r: &mut SplitMix64, ncalls: usize, force_h: Option<bool>) {
     let spec = gen_ising_spec(r, force_h);
     let nrep = r.range(2, 3) as usize;
@@ -1958,6 +2015,132 @@ fn loopzero(ctx: &mut Ctx, r: &mut SplitMix64) {
     ctl.borrow_mut().override_at = None;
 }
 
+// ------------------------------------------------------------------------------------------
+// mode zeroword: the class "an exact tie at 0.0 (or the largest word) stores a zero-weight op",
+// for every update kind of both samplers: heat-bath and Metropolis diagonal sweeps, cluster step
+// (+ free refresh), RVB update, generic diagonal / cluster / refresh. Each draw position of a
+// recorded call is re-run with the word replaced by 0, 2^11 (f64 draws = 0.0 exactly) and
+// u64::MAX. Any word is a legitimate RNG output: every result must be Consistent and Legal.
+// ------------------------------------------------------------------------------------------
+fn new_ctl() -> std::rc::Rc<std::cell::RefCell<Ctl>> {
+    std::rc::Rc::new(std::cell::RefCell::new(Ctl { count: 0, override_at: None, log: vec![] }))
+}
+fn ctl_set(ctl: &std::rc::Rc<std::cell::RefCell<Ctl>>, ov: Option<(usize, u64)>) {
+    let mut c = ctl.borrow_mut();
+    c.count = 0;
+    c.override_at = ov;
+    c.log.clear();
+}
+
+fn probe_ising(ctx: &mut Ctx, ctl: &std::rc::Rc<std::cell::RefCell<Ctl>>, base: &G<CtlRng>, rel: &str, name: &str, cap: usize, f: &dyn Fn(&mut G<CtlRng>)) {
+    ctl_set(ctl, None);
+    let mut refrun = base.clone();
+    if catch(|| f(&mut refrun)).is_err() {
+        return;
+    }
+    let ndraws = ctl.borrow().log.len();
+    stat(&format!("zeroword.{}.draws", name), ndraws);
+    for pos in 0..std::cmp::min(ndraws, cap) {
+        for w in [0u64, 1 << 11, u64::MAX] {
+            ctl_set(ctl, Some((pos, w)));
+            let mut g = base.clone();
+            let call = format!("{}[word{}:={}]", name, pos, w);
+            ising_single(ctx, &mut g, rel, &call, |g| f(g));
+        }
+    }
+    ctl_set(ctl, None);
+}
+
+fn probe_generic(ctx: &mut Ctx, ctl: &std::rc::Rc<std::cell::RefCell<Ctl>>, base: &Qmc<CtlRng, FastOps>, rel: &str, name: &str, cap: usize, f: &dyn Fn(&mut Qmc<CtlRng, FastOps>)) {
+    ctl_set(ctl, None);
+    let mut refrun = base.clone();
+    if catch(|| f(&mut refrun)).is_err() {
+        return;
+    }
+    let ndraws = ctl.borrow().log.len();
+    stat(&format!("zeroword.{}.draws", name), ndraws);
+    for pos in 0..std::cmp::min(ndraws, cap) {
+        for w in [0u64, 1 << 11, u64::MAX] {
+            ctl_set(ctl, Some((pos, w)));
+            let mut q = base.clone();
+            let call = format!("{}[word{}:={}]", name, pos, w);
+            generic_single_x(ctx, &mut q, rel, &call, |q| {
+                f(q);
+                Ok(())
+            });
+        }
+    }
+    ctl_set(ctl, None);
+}
+
+fn zeroword(ctx: &mut Ctx, r: &mut SplitMix64, cap: usize) {
+    // ---- Ising sampler ----
+    {
+        let with_h = r.chance(2, 3);
+        let spec = gen_ising_spec(r, Some(with_h));
+        let ctl = new_ctl();
+        let rng = CtlRng { stream: SplitMix64::new(r.next()), ctl: ctl.clone() };
+        let cutoff = r.range(2, 8) as usize;
+        let st = gen_state(r, spec.nvars);
+        let mut g = G::<CtlRng>::new_with_rng(spec.edges.clone(), spec.gamma, spec.h, cutoff, rng, Some(st));
+        let hb = r.chance(2, 3);
+        if hb {
+            g.set_enable_heatbath(true);
+        }
+        let warm = r.range(1, 4);
+        if catch(|| {
+            for _ in 0..warm {
+                g.timestep(*r.pick(&[0.5, 1.0, 2.0]));
+            }
+        })
+        .is_err()
+        {
+            return;
+        }
+        let beta = *r.pick(&[0.5, 1.0, 2.0, 4.0]);
+        let name = if hb { "single_diagonal_step(heatbath)" } else { "single_diagonal_step(metropolis)" };
+        probe_ising(ctx, &ctl, &g, "diag", name, cap, &|g| g.single_diagonal_step(beta));
+        probe_ising(ctx, &ctl, &g, "icluster", "single_cluster_step", cap / 2, &|g| {
+            g.single_cluster_step();
+        });
+        if r.coin() {
+            probe_ising(ctx, &ctl, &g, "rvb", "single_rvb_sweep(Some(1))", cap / 2, &|g| {
+                g.single_rvb_sweep(Some(1));
+            });
+        }
+    }
+    // ---- generic sampler ----
+    {
+        let kind = r.below(8);
+        let nvars = if kind == 6 { r.range(3, 4) as usize } else { r.range(2, 4) as usize };
+        let ctl = new_ctl();
+        let rng = CtlRng { stream: SplitMix64::new(r.next()), ctl: ctl.clone() };
+        let st = gen_state(r, nvars);
+        let mut q = build_generic_with(r, kind, nvars, st, kind == 0 || kind == 6, rng);
+        let hb = r.chance(2, 3);
+        q.set_do_heatbath(hb);
+        let warm = r.range(1, 3);
+        if catch(|| {
+            for _ in 0..warm {
+                q.timestep(*r.pick(&[0.5, 1.0, 2.0]));
+            }
+        })
+        .is_err()
+        {
+            return;
+        }
+        let beta = *r.pick(&[0.5, 1.0, 2.0, 4.0]);
+        let name = if hb { "diagonal_update(heatbath)" } else { "diagonal_update(metropolis)" };
+        probe_generic(ctx, &ctl, &q, "diag", name, cap, &|q| q.diagonal_update(beta));
+        if q.should_do_cluster_update() {
+            probe_generic(ctx, &ctl, &q, "gcluster", "cluster_update", cap / 2, &|q| {
+                let _ = q.cluster_update();
+            });
+        }
+        probe_generic(ctx, &ctl, &q, "free", "flip_free_bits", 4, &|q| q.flip_free_bits());
+    }
+}
+
 /// Run one scenario; a panic that escapes the per-call guards (only possible once the real code
 /// misbehaves) is reported as a failing case instead of killing the harness.
 fn guarded(ctx: &mut Ctx, what: &str, f: impl FnOnce(&mut Ctx)) {
@@ -1984,8 +2167,11 @@ fn main() {
                         if (k / 8) % 2 == 0 {
                             field_ladder_scenario(ctx, &mut rr, 30)
                         } else {
-                            for _ in 0..4 {
+                            for _ in 0..3 {
                                 hot_cold_swap_scenario(ctx, &mut rr)
+                            }
+                            for _ in 0..3 {
+                                gamma_zero_convert_scenario(ctx, &mut rr)
                             }
                         }
                     }
@@ -2010,8 +2196,12 @@ fn main() {
                     2 => generic_scenario(ctx, &mut rr, ncalls),
                     4 => {
                         if (k / 5) % 3 == 0 {
-                            for _ in 0..4 {
+                            for _ in 0..3 {
                                 hot_cold_swap_scenario(ctx, &mut rr)
+                            }
+                        } else if (k / 5) % 3 == 1 {
+                            for _ in 0..6 {
+                                gamma_zero_convert_scenario(ctx, &mut rr)
                             }
                         } else {
                             field_ladder_scenario(ctx, &mut rr, 32)
@@ -2036,6 +2226,13 @@ fn main() {
             }
         }
         "swapwit" => guarded(&mut ctx, "swapwit", |ctx| swapwit(ctx)),
+        "zeroword" => {
+            let (n, cap) = if a.thorough { (600, 40) } else { (150, 30) };
+            for _ in 0..n {
+                let mut rr = SplitMix64::new(r.next());
+                guarded(&mut ctx, "zeroword", |ctx| zeroword(ctx, &mut rr, cap));
+            }
+        }
         "loopzero" => {
             let n = if a.thorough { 500 } else { 120 };
             for _ in 0..n {
